@@ -410,31 +410,30 @@ Proof.
   - intros aid b H. exists b. split; [apply sa_nth_error_snoc_old; exact H|reflexivity].
 Qed.
 
-Lemma find_or_create_arch_spec : forall s m,
+(** The archetype record alone ([create_archetype_bare]): appended without table. *)
+Lemma sa_create_archetype_bare_spec : forall s m,
   St s -> (forall j, mk_get m j = true -> j < length (w_reg s)) ->
-  exists aid s', find_or_create_arch m s = Ok aid s' /\ St s' /\ same_rows s s' /\ side_same s s' /\
-                 frame_user s s' /\ w_tables s' = w_tables s /\
-                 (exists a, nth_error (w_archs s') aid = Some a /\ a_mask a = m).
+  (forall j a, nth_error (w_archs s) j = Some a -> a_mask a <> m) ->
+  exists s1 a, create_archetype_bare m s = Ok (length (w_archs s)) s1 /\ St s1 /\ same_rows s s1 /\
+    side_same s s1 /\ frame_user s s1 /\ w_tables s1 = w_tables s /\ w_archs s1 = w_archs s ++ [a] /\
+    a_mask a = m /\ a_tables a = [] /\ a_numrel a = 0.
 Proof.
-  intros s m HS Hm. unfold find_or_create_arch, bind, get. rewrite sa_find_arch_go.
-  destruct (sa_find_go m (w_archs s) 0) as [i|] eqn:F.
-  - apply sa_find_go_some in F. destruct F as (_ & a & Ha & Ma). rewrite Nat.sub_0_r in Ha.
-    exists i, s. unfold ret.
-    split; [reflexivity|]. split; [exact HS|]. split; [apply same_rows_refl|].
-    split; [apply sa_side_same_refl|]. split; [apply sa_frame_user_refl|]. split; [reflexivity|].
-    exists a. auto.
-  - pose proof (sa_find_go_none _ _ _ F) as Hu.
-    unfold create_archetype, bind, get, put, ret. eexists. eexists. split; [reflexivity|].
-    destruct HS as [HW HN]. pose proof HN as (N1 & _).
-    split; [|split; [|split; [|split; [|split]]]].
-    + eapply sa_append_arch_St with (s := s); try reflexivity; try (split; assumption); cbn; auto;
-        try (apply sa_fold_length; intros; apply updf_length);
-        rewrite sa_filter_map_false by (intros c; apply N1); reflexivity.
-    + eapply sa_append_arch_rows; reflexivity.
-    + unfold side_same. cbn. repeat split.
-    + unfold frame_user. cbn. repeat split.
-    + reflexivity.
-    + eexists. split; [cbn; apply sa_nth_error_snoc_new|reflexivity].
+  intros s m HS Hm Hu.
+  unfold create_archetype_bare, bind, get, put, ret. eexists. eexists. split; [reflexivity|].
+  destruct HS as [HW HN]. pose proof HN as (N1 & _).
+  assert (Hnr : length (filter (fun b : bool => b) (map (fun c => ck_rel (kind_of s c)) (mk_to_list m (length (w_reg s))))) = 0).
+  { rewrite sa_filter_map_false by (intros c; apply N1). reflexivity. }
+  split; [|split; [|split; [|split; [|split; [|split; [|split; [|split]]]]]]].
+  - eapply sa_append_arch_St with (s := s); try reflexivity; try (split; assumption); cbn; auto;
+      try (apply sa_fold_length; intros; apply updf_length); rewrite ?Hnr; reflexivity.
+  - eapply sa_append_arch_rows; reflexivity.
+  - unfold side_same. cbn. repeat split.
+  - unfold frame_user. cbn. repeat split.
+  - reflexivity.
+  - reflexivity.
+  - reflexivity.
+  - reflexivity.
+  - exact Hnr.
 Qed.
 
 (** get_or_create_table in a relation-free world: with no relation targets given it succeeds and
@@ -645,12 +644,12 @@ Proof.
 Qed.
 
 (** create_table for an archetype without tables, no relation targets *)
-Lemma sa_create_table_nil : forall s aid a,
+Lemma sa_create_table_nil_full : forall s aid a,
   St s -> nth_error (w_archs s) aid = Some a -> a_tables a = [] ->
-  exists s', create_table aid [] s = Ok (length (w_tables s)) s' /\
+  exists s' t, create_table aid [] s = Ok (length (w_tables s)) s' /\
     St s' /\ same_rows s s' /\ side_same s s' /\ frame_user s s' /\
-    (exists t, nth_error (w_tables s') (length (w_tables s)) = Some t /\ t_arch t = aid) /\
-    (exists a', nth_error (w_archs s') aid = Some a' /\ a_mask a' = a_mask a).
+    w_tables s' = w_tables s ++ [t] /\ t_arch t = aid /\
+    w_archs s' = updf aid (sa_arch_add (length (w_tables s))) (w_archs s).
 Proof.
   intros s aid a HS Ha Hta. pose proof HS as [HW HN]. pose proof HN as (N1 & N2 & N3 & N4).
   destruct (N3 aid a Ha) as (Hf & Hn & Hg & Hr).
@@ -681,16 +680,139 @@ Proof.
   { intros addr Hin. apply (wf_cache _ HW addr Hin). }
   rewrite (sa_bind_ok E3). unfold ret.
   set (s3 := s2 <| w_cheap := l' |>).
-  exists s3. split; [reflexivity|].
+  exists s3, t. split; [reflexivity|].
   assert (EA3 : w_archs s3 = updf aid (sa_arch_add tid) (w_archs s)) by exact EA.
   assert (ET3 : w_tables s3 = w_tables s ++ [t]) by reflexivity.
-  split; [|split; [|split; [|split; [|split]]]].
+  split; [|split; [|split; [|split; [|split; [|split]]]]].
   - eapply (sa_append_table_St s s3 aid a t); eauto; reflexivity.
   - eapply (sa_append_table_rows s s3 aid t); eauto; reflexivity.
   - unfold side_same. cbn. repeat split.
   - unfold frame_user. cbn. repeat split.
-  - exists t. rewrite ET3. split; [apply sa_nth_error_snoc_new|reflexivity].
-  - rewrite EA3. destruct (sa_archs_after_add_old (w_archs s) aid tid aid a Ha) as (b' & B1 & B2). exists b'. auto.
+  - exact ET3.
+  - reflexivity.
+  - exact EA3.
+Qed.
+
+Lemma sa_create_table_nil : forall s aid a,
+  St s -> nth_error (w_archs s) aid = Some a -> a_tables a = [] ->
+  exists s', create_table aid [] s = Ok (length (w_tables s)) s' /\
+    St s' /\ same_rows s s' /\ side_same s s' /\ frame_user s s' /\
+    (exists t, nth_error (w_tables s') (length (w_tables s)) = Some t /\ t_arch t = aid) /\
+    (exists a', nth_error (w_archs s') aid = Some a' /\ a_mask a' = a_mask a).
+Proof.
+  intros s aid a HS Ha Hta.
+  destruct (sa_create_table_nil_full s aid a HS Ha Hta) as (s' & t & E & HS' & R & D & F & ET & At & EA).
+  exists s'. split; [exact E|]. split; [exact HS'|]. split; [exact R|]. split; [exact D|]. split; [exact F|]. split.
+  - exists t. rewrite ET. split; [apply sa_nth_error_snoc_new|exact At].
+  - rewrite EA. destruct (sa_archs_after_add_old (w_archs s) aid (length (w_tables s)) aid a Ha) as (b' & B1 & B2). exists b'. auto.
+Qed.
+
+(** *** createArchetype (as repaired) and find_or_create_arch
+
+    An archetype of a relation-free world is created together with its table. *)
+Lemma sa_updf_last : forall A (f : A -> A) (l : list A) a, updf (length l) f (l ++ [a]) = l ++ [f a].
+Proof.
+  intros A f l a. unfold updf. rewrite sa_nth_error_snoc_new. apply upd_app.
+Qed.
+
+Lemma sa_create_archetype_spec : forall s m,
+  St s -> (forall j, mk_get m j = true -> j < length (w_reg s)) ->
+  (forall j a, nth_error (w_archs s) j = Some a -> a_mask a <> m) ->
+  exists s' a t, create_archetype m s = Ok (length (w_archs s)) s' /\ St s' /\ same_rows s s' /\
+    side_same s s' /\ frame_user s s' /\
+    w_archs s' = w_archs s ++ [a] /\ w_tables s' = w_tables s ++ [t] /\
+    a_mask a = m /\ a_tables a = [length (w_tables s)] /\ t_arch t = length (w_archs s).
+Proof.
+  intros s m HS Hm Hu.
+  destruct (sa_create_archetype_bare_spec s m HS Hm Hu) as (s1 & a0 & E1 & HS1 & R1 & D1 & F1 & T1 & A1 & M1 & Tb1 & Nr1).
+  assert (Ha0 : nth_error (w_archs s1) (length (w_archs s)) = Some a0) by (rewrite A1; apply sa_nth_error_snoc_new).
+  destruct (sa_create_table_nil_full s1 _ a0 HS1 Ha0 Tb1) as (s2 & t & E2 & HS2 & R2 & D2 & F2 & ET & At & EA).
+  exists s2, (sa_arch_add (length (w_tables s)) a0), t. split.
+  - unfold create_archetype. rewrite (sa_bind_ok E1), (sa_bind_ok (sa_getA_eq _ _ _ Ha0)). rewrite Nr1. cbn [Nat.eqb].
+    unfold bind. rewrite E2. reflexivity.
+  - split; [exact HS2|]. split; [eapply same_rows_trans; eauto|]. split; [eapply sa_side_same_trans; eauto|].
+    split; [eapply sa_frame_user_trans; eauto|].
+    split; [rewrite EA, A1, T1; apply sa_updf_last|]. split; [rewrite ET, T1; reflexivity|].
+    split; [exact M1|]. split; [unfold sa_arch_add; cbn; rewrite Tb1; reflexivity|exact At].
+Qed.
+
+(** What [find_or_create_arch] does: nothing (the archetype exists), or it appends the archetype
+    together with its table. *)
+Lemma find_or_create_arch_shape : forall s m,
+  St s -> (forall j, mk_get m j = true -> j < length (w_reg s)) ->
+  exists aid s', find_or_create_arch m s = Ok aid s' /\
+    ((s' = s /\ exists a, nth_error (w_archs s) aid = Some a /\ a_mask a = m) \/
+     (find_arch s m = None /\ aid = length (w_archs s) /\
+      exists a t, w_archs s' = w_archs s ++ [a] /\ w_tables s' = w_tables s ++ [t] /\
+        a_mask a = m /\ a_tables a = [length (w_tables s)] /\ t_arch t = length (w_archs s))).
+Proof.
+  intros s m HS Hm. unfold find_or_create_arch, bind, get. rewrite sa_find_arch_go.
+  destruct (sa_find_go m (w_archs s) 0) as [i|] eqn:F.
+  - apply sa_find_go_some in F. destruct F as (_ & a & Ha & Ma). rewrite Nat.sub_0_r in Ha.
+    exists i, s. unfold ret. split; [reflexivity|]. left. split; [reflexivity|]. exists a. auto.
+  - pose proof (sa_find_go_none _ _ _ F) as Hu.
+    destruct (sa_create_archetype_spec s m HS Hm Hu) as (s' & a & t & E & _ & _ & _ & _ & EA & ET & Ma & Ta & At).
+    exists (length (w_archs s)), s'. split; [exact E|]. right. split; [reflexivity|]. split; [reflexivity|].
+    exists a, t. auto.
+Qed.
+
+Lemma find_or_create_arch_spec : forall s m,
+  St s -> (forall j, mk_get m j = true -> j < length (w_reg s)) ->
+  exists aid s', find_or_create_arch m s = Ok aid s' /\ St s' /\ same_rows s s' /\ side_same s s' /\
+                 frame_user s s' /\
+                 (forall tid t, nth_error (w_tables s) tid = Some t -> nth_error (w_tables s') tid = Some t) /\
+                 (exists a, nth_error (w_archs s') aid = Some a /\ a_mask a = m).
+Proof.
+  intros s m HS Hm. unfold find_or_create_arch, bind, get. rewrite sa_find_arch_go.
+  destruct (sa_find_go m (w_archs s) 0) as [i|] eqn:F.
+  - apply sa_find_go_some in F. destruct F as (_ & a & Ha & Ma). rewrite Nat.sub_0_r in Ha.
+    exists i, s. unfold ret.
+    split; [reflexivity|]. split; [exact HS|]. split; [apply same_rows_refl|].
+    split; [apply sa_side_same_refl|]. split; [apply sa_frame_user_refl|]. split; [auto|].
+    exists a. auto.
+  - pose proof (sa_find_go_none _ _ _ F) as Hu.
+    destruct (sa_create_archetype_spec s m HS Hm Hu) as (s' & a & t & E & HS' & R & D & Fu & EA & ET & Ma & Ta & At).
+    exists (length (w_archs s)), s'. split; [exact E|]. split; [exact HS'|]. split; [exact R|]. split; [exact D|].
+    split; [exact Fu|]. split.
+    + intros tid x Hx. rewrite ET. apply sa_nth_error_snoc_old. exact Hx.
+    + exists a. rewrite EA. split; [apply sa_nth_error_snoc_new|exact Ma].
+Qed.
+
+(** The new invariant clause: in a relation-free world every archetype has its table. It holds
+    initially and is kept by the structure creation ([find_or_create_arch] creates the table together
+    with the archetype; [get_or_create_table] then finds it). *)
+Lemma archs_tabled_init : forall c, archs_tabled_norel (init_world c).
+Proof.
+  intros c [|aid] a H _; [|destruct aid; discriminate]. unfold init_world in H. cbn [w_archs nth_error] in H.
+  inversion H; subst a. cbn. discriminate.
+Qed.
+
+Lemma find_or_create_arch_tabled : forall s m aid s',
+  St s -> (forall j, mk_get m j = true -> j < length (w_reg s)) ->
+  find_or_create_arch m s = Ok aid s' -> archs_tabled_norel s -> archs_tabled_norel s'.
+Proof.
+  intros s m aid s' HS Hm E HT.
+  destruct (find_or_create_arch_shape s m HS Hm) as (aid' & s1 & E1 & Sh).
+  rewrite E in E1. injection E1 as <- <-.
+  destruct Sh as [[Es _]|(_ & _ & a & t & EA & _ & _ & Ta & _)]; [rewrite Es; exact HT|].
+  intros i b Hb Nb. rewrite EA in Hb. apply sa_nth_error_snoc in Hb. destruct Hb as [[_ Hb]|[_ ->]].
+  - eapply HT; eauto.
+  - rewrite Ta. discriminate.
+Qed.
+
+(** After [find_or_create_arch] the returned archetype has its table, also if the starting state had
+    archetypes without table elsewhere (a state that is no longer reachable). *)
+Lemma find_or_create_arch_new_tabled : forall s m aid s',
+  St s -> (forall j, mk_get m j = true -> j < length (w_reg s)) ->
+  find_or_create_arch m s = Ok aid s' -> find_arch s m = None ->
+  exists a, nth_error (w_archs s') aid = Some a /\ a_tables a = [length (w_tables s)].
+Proof.
+  intros s m aid s' HS Hm E Fn.
+  destruct (find_or_create_arch_shape s m HS Hm) as (aid' & s1 & E1 & Sh).
+  rewrite E in E1. injection E1 as <- <-.
+  destruct Sh as [[Es (a & Ha & Ma)]|(_ & Ea & a & t & EA & _ & _ & Ta & _)].
+  - exfalso. rewrite sa_find_arch_go in Fn. eapply sa_find_go_none; eauto.
+  - exists a. rewrite EA, Ea. split; [apply sa_nth_error_snoc_new|exact Ta].
 Qed.
 
 Lemma get_or_create_table_spec : forall s aid a rels,
@@ -825,7 +947,7 @@ Proof.
   intros s old ot m HS Hot Hm. split; [apply HS in Hot; apply Hot|].
   destruct (find_or_create_arch_spec s m HS Hm) as (aid & s1 & E1 & HS1 & R1 & D1 & F1 & T1 & a & Ha & Ma).
   exists aid, s1, a. split; [exact E1|]. split; [apply sa_getA_eq; exact Ha|]. split; [exact Ma|].
-  split; [apply sa_getT_eq; rewrite T1; exact Hot|].
+  split; [apply sa_getT_eq; apply T1; exact Hot|].
   pose proof (get_or_create_table_spec s1 aid a [] HS1 Ha) as G.
   destruct (get_or_create_table aid [] s1) as [tid s2|e s2].
   - destruct G as (HS2 & R2 & D2 & F2 & (t & Ht & At) & (a' & Ha' & Ma')).
@@ -914,6 +1036,141 @@ Proof.
       intros j. rewrite Hm, Hm1. reflexivity.
     + destruct G as (-> & _). rewrite (sa_bind_err EG2). apply sa_finder_err_refl; exact HS.
   - destruct G as (-> & Hn). rewrite (sa_bind_err EG). apply sa_finder_err_refl; exact HS.
+Qed.
+
+(** The finders keep the clause "every archetype has its table" ([archs_tabled_norel]): the archetype
+    step creates the table together with the archetype, the table step then finds it. Since
+    [init_world] has the clause, no reachable state of a relation-free world has an archetype without
+    table, whatever operations were rejected on the way. *)
+Lemma get_or_create_table_tabled : forall s aid a rels,
+  St s -> nth_error (w_archs s) aid = Some a -> a_tables a <> [] ->
+  get_or_create_table aid rels s = Ok (hd 0 (a_tables a)) s.
+Proof.
+  intros s aid a rels HS Ha Hta. pose proof HS as [HW HN]. pose proof HN as (N1 & N2 & N3 & N4).
+  destruct (N3 aid a Ha) as (Hf & Hn & Hg & Hr).
+  unfold get_or_create_table. rewrite (sa_bind_ok (sa_getA_eq _ _ _ Ha)).
+  unfold arch_get_table. destruct (a_tables a) as [|t0 tl] eqn:Et; [congruence|].
+  unfold arch_has_rels. rewrite Hn. cbn [Nat.eqb negb]. reflexivity.
+Qed.
+
+Lemma sa_finder_tail_tabled : forall s m aid s1 rels tid s2,
+  St s -> (forall j, mk_get m j = true -> j < length (w_reg s)) -> archs_tabled_norel s ->
+  find_or_create_arch m s = Ok aid s1 -> get_or_create_table aid rels s1 = Ok tid s2 ->
+  s2 = s1 /\ archs_tabled_norel s1.
+Proof.
+  intros s m aid s1 rels tid s2 HS Hm HT E1 E2.
+  pose proof (find_or_create_arch_tabled s m aid s1 HS Hm E1 HT) as HT1.
+  destruct (find_or_create_arch_spec s m HS Hm) as (aid' & s1' & E1' & HS1 & _ & _ & _ & _ & a & Ha & _).
+  rewrite E1 in E1'. injection E1' as <- <-.
+  assert (Hta : a_tables a <> []) by (apply (HT1 aid a Ha); apply HS1 in Ha; apply Ha).
+  rewrite (get_or_create_table_tabled s1 aid a rels HS1 Ha Hta) in E2. injection E2 as _ <-. auto.
+Qed.
+
+(** The two halves of a finder, regrouped. [find_or_create_arch] (archetype, with its table if it is
+    new) followed by [get_or_create_table] reaches the same state and returns the same table as the
+    archetype step alone ([find_or_create_arch_bare]: the archetype record without table) followed by
+    [get_or_create_table], which then creates the table. Proofs that follow a finder through the
+    intermediate state "archetype appended, table not yet created" (StorageD) use this regrouping. *)
+Definition find_or_create_arch_bare (m : mask) : MW nat :=
+  s <- get ;;
+  match find_arch s m with
+  | Some i => ret i
+  | None => create_archetype_bare m
+  end.
+
+Lemma sa_finder_tail_bare : forall s m aid s1 tid s2,
+  St s -> (forall j, mk_get m j = true -> j < length (w_reg s)) ->
+  find_or_create_arch m s = Ok aid s1 -> get_or_create_table aid [] s1 = Ok tid s2 ->
+  exists s0 a, find_or_create_arch_bare m s = Ok aid s0 /\ St s0 /\
+    nth_error (w_archs s0) aid = Some a /\ a_mask a = m /\
+    get_or_create_table aid [] s0 = Ok tid s2.
+Proof.
+  intros s m aid s1 tid s2 HS Hm E1 E4.
+  unfold find_or_create_arch, bind, get in E1. unfold find_or_create_arch_bare, bind, get.
+  rewrite sa_find_arch_go in *.
+  destruct (sa_find_go m (w_archs s) 0) as [i|] eqn:F.
+  - unfold ret in E1. injection E1 as <- <-.
+    apply sa_find_go_some in F. destruct F as (_ & a & Ha & Ma). rewrite Nat.sub_0_r in Ha.
+    exists s, a. unfold ret. auto.
+  - pose proof (sa_find_go_none _ _ _ F) as Hu.
+    destruct (sa_create_archetype_bare_spec s m HS Hm Hu) as (s0 & a0 & E0 & HS0 & _ & _ & _ & T0 & A0 & M0 & Tb0 & Nr0).
+    assert (Ha0 : nth_error (w_archs s0) (length (w_archs s)) = Some a0) by (rewrite A0; apply sa_nth_error_snoc_new).
+    destruct (sa_create_table_nil_full s0 _ a0 HS0 Ha0 Tb0) as (s1' & t & E2 & HS1 & _ & _ & _ & ET & At & EA).
+    assert (Ec : create_archetype m s = Ok (length (w_archs s)) s1').
+    { unfold create_archetype. rewrite (sa_bind_ok E0), (sa_bind_ok (sa_getA_eq _ _ _ Ha0)). rewrite Nr0. cbn [Nat.eqb].
+      unfold bind. rewrite E2. reflexivity. }
+    rewrite Ec in E1. injection E1 as <- <-.
+    exists s0, a0. split; [exact E0|]. split; [exact HS0|]. split; [exact Ha0|]. split; [exact M0|].
+    assert (Ha1 : nth_error (w_archs s1') (length (w_archs s)) = Some (sa_arch_add (length (w_tables s0)) a0)).
+    { rewrite EA, nth_error_updf, Nat.eqb_refl, Ha0. reflexivity. }
+    rewrite (get_or_create_table_tabled s1' _ _ [] HS1 Ha1) in E4
+      by (unfold sa_arch_add; cbn; rewrite Tb0; discriminate).
+    unfold sa_arch_add in E4. cbn in E4. rewrite Tb0 in E4. cbn in E4. injection E4 as <- <-.
+    unfold get_or_create_table. rewrite (sa_bind_ok (sa_getA_eq _ _ _ Ha0)).
+    unfold arch_get_table. rewrite Tb0. rewrite (sa_bind_ok (m := ret None) (s := s0) eq_refl). exact E2.
+Qed.
+
+Lemma find_or_create_table_add_tabled : forall s old ot add m0,
+  St s -> nth_error (w_tables s) old = Some ot ->
+  (forall j, mk_get m0 j = true -> j < length (w_reg s)) -> (forall c, In c add -> c < length (w_reg s)) ->
+  archs_tabled_norel s -> archs_tabled_norel (state_of (find_or_create_table_add old add [] m0 s)).
+Proof.
+  intros s old ot add m0 HS Hot Hm0 Hadd HT. unfold find_or_create_table_add.
+  pose proof (sa_gf_add_spec None add m0 s) as G.
+  destruct (gf_add None add m0 s) as [m s0|e s0] eqn:EG.
+  - destruct G as (-> & Hm & ND & Hf & _). rewrite (sa_bind_ok EG).
+    assert (Hb : forall j, mk_get m j = true -> j < length (w_reg s)).
+    { intros j Hj. rewrite Hm in Hj. apply orb_true_iff in Hj. destruct Hj as [Hj|Hj]; [auto|apply Hadd, sa_memb_in; exact Hj]. }
+    destruct (sa_finder_tail s old ot m HS Hot Hb) as (Hr & aid & s1 & a & E1 & E2 & Ma & E3 & tid & s2 & E4 & P).
+    rewrite (sa_bind_ok E1), (sa_bind_ok E3). rewrite Hr. rewrite (sa_bind_ok E4). unfold ret, state_of.
+    destruct (sa_finder_tail_tabled s m aid s1 [] tid s2 HS Hb HT E1 E4) as [-> HT1]. exact HT1.
+  - destruct G as (-> & Hn). rewrite (sa_bind_err EG). exact HT.
+Qed.
+
+Lemma find_or_create_table_remove_tabled : forall s old ot rem m0,
+  St s -> nth_error (w_tables s) old = Some ot ->
+  (forall j, mk_get m0 j = true -> j < length (w_reg s)) ->
+  archs_tabled_norel s -> archs_tabled_norel (state_of (find_or_create_table_remove old rem m0 s)).
+Proof.
+  intros s old ot rem m0 HS Hot Hm0 HT. unfold find_or_create_table_remove.
+  pose proof (sa_gf_remove_spec rem m0 s) as G.
+  destruct (gf_remove rem m0 s) as [m s0|e s0] eqn:EG.
+  - destruct G as (-> & Hm & ND & Hf). rewrite (sa_bind_ok EG).
+    assert (Hb : forall j, mk_get m j = true -> j < length (w_reg s)).
+    { intros j Hj. rewrite Hm in Hj. apply andb_true_iff in Hj. destruct Hj as [Hj _]. auto. }
+    destruct (sa_finder_tail s old ot m HS Hot Hb) as (Hr & aid & s1 & a & E1 & E2 & Ma & E3 & tid & s2 & E4 & P).
+    rewrite (sa_bind_ok E1), (sa_bind_ok E2), (sa_bind_ok E3). rewrite Hr. cbn [surviving_rels filter existsb].
+    rewrite (sa_bind_ok E4). unfold ret, state_of.
+    destruct (sa_finder_tail_tabled s m aid s1 [] tid s2 HS Hb HT E1 E4) as [-> HT1]. exact HT1.
+  - destruct G as (-> & Hn). rewrite (sa_bind_err EG). exact HT.
+Qed.
+
+Lemma find_or_create_table_tabled : forall s old ot add rem m0,
+  St s -> nth_error (w_tables s) old = Some ot ->
+  (forall j, mk_get m0 j = true -> j < length (w_reg s)) -> (forall c, In c add -> c < length (w_reg s)) ->
+  archs_tabled_norel s -> archs_tabled_norel (state_of (find_or_create_table old add rem [] m0 s)).
+Proof.
+  intros s old ot add rem m0 HS Hot Hm0 Hadd HT. unfold find_or_create_table.
+  pose proof (sa_gf_remove_spec rem m0 s) as G.
+  destruct (gf_remove rem m0 s) as [m1 s0|e s0] eqn:EG.
+  - destruct G as (-> & Hm1 & NDr & Hfr). rewrite (sa_bind_ok EG).
+    pose proof (sa_gf_add_spec (Some m0) add m1 s) as G.
+    destruct (gf_add (Some m0) add m1 s) as [m s0|e s0] eqn:EG2.
+    + destruct G as (-> & Hm & NDa & Hfa & Hsa). rewrite (sa_bind_ok EG2).
+      assert (Hb : forall j, mk_get m j = true -> j < length (w_reg s)).
+      { intros j Hj. rewrite Hm, Hm1 in Hj. apply orb_true_iff in Hj. destruct Hj as [Hj|Hj].
+        - apply andb_true_iff in Hj. destruct Hj as [Hj _]. auto.
+        - apply Hadd, sa_memb_in; exact Hj. }
+      destruct (sa_finder_tail s old ot m HS Hot Hb) as (Hr & aid & s1 & a & E1 & E2 & Ma & E3 & tid & s2 & E4 & P).
+      rewrite (sa_bind_ok E1), (sa_bind_ok E2), (sa_bind_ok E3). rewrite Hr.
+      assert (X : (match rem with
+                   | [] => (@nil rel, false)
+                   | _ :: _ => let '(sv, rm) := surviving_rels a [] in (sv ++ [], rm)
+                   end) = ([], false)) by (destruct rem; reflexivity).
+      rewrite X. rewrite (sa_bind_ok E4). unfold ret, state_of.
+      destruct (sa_finder_tail_tabled s m aid s1 [] tid s2 HS Hb HT E1 E4) as [-> HT1]. exact HT1.
+    + destruct G as (-> & _). rewrite (sa_bind_err EG2). exact HT.
+  - destruct G as (-> & Hn). rewrite (sa_bind_err EG). exact HT.
 Qed.
 
 (** Pool operations against the invariant's free list. *)
